@@ -83,6 +83,7 @@ def map_cases(rep, modname: str, fname: str, cases: list, *, nproc: int = 14, ch
     if not cases:
         return
     ctx = mp.get_context("spawn")
+    chunk = max(chunk, -(-len(cases) // (nproc * 8)))      # a process costs ~4 s to start (JAX import): at most ~8 rounds of nproc of them
     chunks = [cases[i:i + chunk] for i in range(0, len(cases), chunk)]
     pending = deque(((ci, 0), ch) for ci, ch in enumerate(chunks))
     nproc = max(1, min(nproc, len(chunks)))
